@@ -293,6 +293,9 @@ class CoopLock:
                         return True
                 if not blocking:
                     return False
+                if st is None and s is not None and not s.free:
+                    # called from the controller while every scheduled thread is frozen: nobody can release
+                    raise Abandoned()
                 time.sleep(0.0005)
                 if time.time() - t0 > 2.0:
                     raise Abandoned()
